@@ -232,6 +232,8 @@ def run(rep, facts, tier):
     # ------------------------------------------------------------ R01.6 (shared with C03 R03.6)
     rule_exclusive_bound(rep, fx, 'R01.6')
 
+    rule_01_9(rep, fx)
+
     # ------------------------------------------------------------ R01.8 (shared with C08 R08.9)
     from rules.C08 import rule_sort_before_limit
     rule_sort_before_limit(rep, fx, 'R01.8')
@@ -270,3 +272,68 @@ def rule_exclusive_bound(rep, fx, rid):
                   'inclusive range (.., %s): an exclusive bound (%s) is used as an inclusive end without "- 1": the first sequence number after the range is covered too '
                   '(a still relevant change would be declared irrelevant)' % (term_str(hi)[:60], ', '.join(excl)), b.where(bb))
     rep.floor(rid, n, 4, 'constructions of inclusive sequence-/fragment-number ranges')
+
+
+def rule_01_9(rep, fx):
+    """Source timestamp and writer identity of a sample are message-scoped receiver state: set by INFO_TS / the header of the same message, never left over from an earlier one."""
+    rep.rule('R01.9', 'message-scoped receiver state: MessageReceiver.source_timestamp / source_guid_prefix are written only by reset(), the message header and the INFO_TS / INFO_SRC '
+                      'handler (timestamp := the submessage\'s own Option, so an invalidating INFO_TS clears it); every received packet passes reset() before its first submessage; the state '
+                      'handed to the Reader copies both fields; handle_data_msg / handle_datafrag_msg take the sample\'s source timestamp from that state')
+    MR = 'rtps::message_receiver::MessageReceiver'
+    allowed = {MR + '::reset', MR + '::handle_parsed_message', MR + '::handle_interpreter_submessage', MR + '::new'}
+    writers = {}
+    for b in fx.bodies:
+        for bb, si, st in b.statements():
+            if st['s'] == 'assign' and st['lhs'].get('p'):
+                last = st['lhs']['p'][-1]
+                if isinstance(last, dict) and last.get('n') in ('source_timestamp', 'source_guid_prefix') and str(last.get('adt', '')).endswith('message_receiver::MessageReceiver'):
+                    writers.setdefault(b.key, []).append((last['n'], bb, si))
+    extra = sorted(k for k in writers if k not in allowed)
+    rep.check(bool(writers) and not extra, 'R01.9', 'MessageReceiver/state-writers', 'written only by %s' % sorted(k.rsplit('::', 1)[-1] for k in writers),
+              'MessageReceiver.source_timestamp / source_guid_prefix is also written by %s' % extra, '')
+    # INFO_TS: timestamp := field `timestamp` of the submessage
+    hi = fx.find(MR + '::handle_interpreter_submessage')
+    rep.analysed(hi)
+    og = Origins(hi)
+    vals = []
+    for n, bb, si in writers.get(hi.key, []):
+        if n == 'source_timestamp':
+            st = hi.blocks[bb]['st'][si]
+            vals.append(og._rvalue(st['rv'], bb, si, 0))
+    ok_ts = any(term_has(v, lambda x: x[0] == 'field' and x[1] == 'timestamp' and term_has(x, lambda y: y[0] == 'variant' and y[1] == 'InfoTimestamp')) for v in vals) and \
+        all(term_has(v, lambda x: x[0] == 'field' and x[1] == 'timestamp') or (v[0] == 'agg' and str(v[1]).endswith('Option::None')) for v in vals)
+    rep.check(ok_ts, 'R01.9', 'handle_interpreter_submessage/info-ts', 'source_timestamp := InfoTimestamp.timestamp (None when invalidated)',
+              'the INFO_TS handler does not store the submessage\'s own timestamp option (%s)' % [term_str(v)[:50] for v in vals], hi.where())
+    # every packet passes reset() before any submessage is handled
+    hp = fx.find(MR + '::handle_received_packet')
+    pm = fx.find(MR + '::handle_parsed_message')
+    rep.analysed(hp, pm)
+    ok_reset = False
+    for b in (hp, pm):
+        P = Pos(b)
+        resets = [(bb, 'term') for bb, t in b.calls() if callee_res(t).endswith('MessageReceiver::reset')]
+        subs = [(bb, 'term') for bb, t in b.calls() if callee_res(t).endswith(('handle_submessage', 'handle_parsed_message', 'handle_writer_submessage', 'handle_reader_submessage', 'handle_interpreter_submessage'))]
+        if resets and subs and all(P.every_path_passes(None, s_, via_pos=resets, from_entry=True) for s_ in subs):
+            ok_reset = True
+    rep.check(ok_reset, 'R01.9', 'handle_received_packet/reset-first', 'reset() precedes the handling of the first submessage',
+              'a received packet can be processed without reset(): timestamp / source of the previous datagram leak into its samples', hp.where())
+    cp = fx.find(MR + '::clone_partial_message_receiver_state')
+    ogc = Origins(cp)
+    okc = False
+    for bb, si, st in cp.statements():
+        if st['s'] == 'assign' and st['rv']['r'] == 'agg' and str(st['rv'].get('adt')).endswith('MessageReceiverState'):
+            f = dict(zip(st['rv']['fields'], [ogc.of_operand(o, bb, si) for o in st['rv']['ops']]))
+            okc = f.get('source_timestamp') == ('field', 'source_timestamp', ('param', 1)) and f.get('source_guid_prefix') == ('field', 'source_guid_prefix', ('param', 1))
+    rep.check(okc, 'R01.9', 'clone_partial_message_receiver_state/fields', 'source_timestamp and source_guid_prefix copied from the same-named fields',
+              'the state handed to the Reader does not carry the receiver\'s source_timestamp / source_guid_prefix', cp.where())
+    for nm in ('handle_data_msg', 'handle_datafrag_msg'):
+        b = fx.find('rtps::reader::Reader::' + nm)
+        rep.analysed(b)
+        ogb = Origins(b)
+        okb = False
+        for bb, t in b.calls():
+            if callee_res(t).endswith('WriteOptionsBuilder::source_timestamp'):
+                a = ogb.of_operand(t['args'][1], bb, 'term')
+                okb = okb or term_has(a, lambda x: x[0] == 'field' and x[1] == 'source_timestamp' and term_has(x, lambda y: y[0] == 'param'))
+        rep.check(okb, 'R01.9', '%s/source-timestamp' % nm, 'WriteOptions.source_timestamp from mr_state.source_timestamp',
+                  'Reader::%s does not take the sample\'s source timestamp from the message receiver state' % nm, b.where())
